@@ -2,7 +2,7 @@
    interruption leaves every table exactly as it was: leaf rows (with their row ids), header
    row_count, header auto_increment counter and PRIMARY KEY index. *)
 From Coq Require Import ZArith List Bool Lia.
-From TV Require Import Model.Persist Proof.Persist Proof.PersistSim.
+From TV Require Import Model.Persist Proof.Persist Proof.PersistRel Proof.PersistSim.
 Import ListNotations.
 Open Scope Z_scope.
 
@@ -20,67 +20,32 @@ Proof. intros s o t H. cbn [exec negb]. now rewrite H. Qed.
 Lemma exec_false_stmt : forall s o t, is_int o = false -> exec false s (o :: t) = exec false (fst (step s o)) t.
 Proof. intros s o t H. cbn [exec negb]. now rewrite H. Qed.
 
-(* the invariants of the simulation hold at the end of every history outside the classes *)
-Lemma reach : forall h a b c sA sB,
-  forallb op_in_lang h = true -> Lrel a sA sB -> Fresh b sA ->
-  kclass (kscan a b c h (run true sA h)) = 0 ->
-  Lrel (fst (fst (kscan a b c h (run true sA h)))) (exec true sA h) (exec false sB h)
-  /\ Fresh (snd (fst (kscan a b c h (run true sA h)))) (exec true sA h).
+(* the invariants of the simulation hold at the end of every history outside the class *)
+Lemma reach : forall h b sA sB,
+  forallb op_in_lang h = true -> Lrel sA sB -> Fresh b sA ->
+  kclass (kscan b h (run true sA h)) = 0 ->
+  Lrel (exec true sA h) (exec false sB h) /\ Fresh (kscan b h (run true sA h)) (exec true sA h).
 Proof.
-  induction h as [|o h IH]; intros a b c sA sB HL L F HK; [cbn; auto|].
+  induction h as [|o h IH]; intros b sA sB HL L F HK; [cbn; auto|].
   cbn [forallb] in HL. apply andb_true_iff in HL. destruct HL as [HO HL].
   rewrite run_true_cons in *. cbn [kscan] in *. rewrite exec_true_cons.
-  destruct (final_zero_now _ _ _ _ _ HK) as [C1 C2].
+  pose proof (final_zero_now _ _ _ HK) as C2.
   destruct (is_int o) eqn:HI.
   - rewrite (exec_false_int sB o h HI).
-    destruct (int_step o a b sA sB HI HO L F C2) as (EO & L' & F').
+    destruct (int_step o b sA sB HI HO L F C2) as (EO & L' & F').
     apply IH; assumption.
   - rewrite (exec_false_stmt sB o h HI).
-    destruct (stmt_L o a sA sB HI L C1) as (EO & L').
+    destruct (stmt_L o sA sB HI L) as (EO & L').
     pose proof (stmt_F o b sA HI HO F) as F'.
     apply IH; assumption.
 Qed.
 
-(* the flags of all three classes are sticky, so a prefix of a class-0 history is class 0 *)
-Lemma k3_step_mono : forall c o,
-  (k_recreated c = true -> k_recreated (k3_step c o) = true)
-  /\ (k_reopened c = true -> k_reopened (k3_step c o) = true).
-Proof. intros [d r p] o. destruct o; cbn; split; intros H; try assumption; subst; auto using orb_true_l. Qed.
-
-Lemma kscan_app : forall h1 h2 oa1 oa2 a b c,
-  length oa1 = length h1 ->
-  kscan a b c (h1 ++ h2) (oa1 ++ oa2)
-  = kscan (fst (fst (kscan a b c h1 oa1))) (snd (fst (kscan a b c h1 oa1))) (snd (kscan a b c h1 oa1)) h2 oa2.
+Lemma kscan_app : forall h1 h2 oa1 oa2 b,
+  length oa1 = length h1 -> kscan b (h1 ++ h2) (oa1 ++ oa2) = kscan (kscan b h1 oa1) h2 oa2.
 Proof.
-  induction h1 as [|o h1 IH]; intros h2 oa1 oa2 a b c HLn.
+  induction h1 as [|o h1 IH]; intros h2 oa1 oa2 b HLn.
   - destruct oa1; [reflexivity | discriminate].
   - destruct oa1 as [|x oa1]; [discriminate|]. cbn [app kscan]. apply IH. cbn in HLn. lia.
-Qed.
-
-Lemma kscan_k3_mono : forall h oa a b c,
-  (k_recreated c = true -> k_recreated (snd (kscan a b c h oa)) = true)
-  /\ (k_reopened c = true -> k_reopened (snd (kscan a b c h oa)) = true).
-Proof.
-  induction h as [|o h IH]; intros oa a b c; cbn [kscan]; [split; auto|].
-  destruct oa as [|x oa]; [split; auto|].
-  destruct (IH oa (k1_step a o) (k2_step b o x) (k3_step c o)) as [I1 I2].
-  destruct (k3_step_mono c o) as [M1 M2]. split; auto.
-Qed.
-
-Lemma kclass_prefix : forall h1 h2 oa1 oa2 a b c,
-  length oa1 = length h1 ->
-  kclass (kscan a b c (h1 ++ h2) (oa1 ++ oa2)) = 0 -> kclass (kscan a b c h1 oa1) = 0.
-Proof.
-  intros h1 h2 oa1 oa2 a b c HLn HK. rewrite (kscan_app h1 h2 oa1 oa2 a b c HLn) in HK.
-  destruct (kscan a b c h1 oa1) as [[a1 b1] c1] eqn:E1. cbn [fst snd] in HK.
-  destruct (final_zero_now _ _ _ _ _ HK) as [C1 C2].
-  destruct (kscan a1 b1 c1 h2 oa2) as [[a2 b2] c2] eqn:E2.
-  unfold kclass in *. rewrite C1, C2.
-  destruct (k_c2 b2); [discriminate|].
-  destruct (k_recreated c1 && k_reopened c1) eqn:R; [|reflexivity].
-  apply andb_true_iff in R. destruct R as [R1 R2].
-  destruct (kscan_k3_mono h2 oa2 a1 b1 c1) as [M1 M2]. rewrite E2 in M1, M2. cbn [snd] in M1, M2.
-  rewrite (M1 R1), (M2 R2) in HK. discriminate.
 Qed.
 
 Lemma run_app : forall h1 h2 s, run true s (h1 ++ h2) = run true s h1 ++ run true (exec true s h1) h2.
@@ -96,20 +61,22 @@ Proof.
   cbn [app exec]. destruct (is_int o && negb ints); apply IH.
 Qed.
 
-(* any interruption, at the end of any history outside the classes, changes no table *)
+(* any interruption, at the end of any history outside the class, changes no table *)
 Lemma interruption_preserves_tables_l : forall wal h o,
   is_int o = true -> in_lang (h ++ [o]) = true ->
   known_class_of wal (h ++ [o]) (run true (init wal) (h ++ [o])) = 0 ->
   forall t, s_tab (exec true (init wal) (h ++ [o])) t = s_tab (exec true (init wal) h) t.
 Proof.
-  intros wal h o HI HL HK t. unfold in_lang in HL. apply andb_true_iff in HL. destruct HL as [HL _].
-  unfold known_class_of in HK.
-  pose proof (reach (h ++ [o]) k1_init (k2_init wal) k3_init (init wal) (init wal) HL
-                    (init_Lrel wal) (init_Fresh wal) HK) as [[T1 _ _ _] _].
-  assert (forallb op_in_lang h = true) as HL1 by (rewrite forallb_app in HL; apply andb_true_iff in HL; tauto).
-  rewrite run_app in HK.
-  pose proof (kclass_prefix h [o] _ _ _ _ _ (run_true_length h (init wal)) HK) as HK1.
-  pose proof (reach h k1_init (k2_init wal) k3_init (init wal) (init wal) HL1
-                    (init_Lrel wal) (init_Fresh wal) HK1) as [[T2 _ _ _] _].
-  rewrite T1, T2. rewrite exec_app. cbn [exec negb]. now rewrite HI.
+  intros wal h o HI HL HK t. unfold in_lang in HL. rewrite forallb_app in HL.
+  apply andb_true_iff in HL. destruct HL as [HL1 HL2]. cbn [forallb] in HL2. rewrite andb_true_r in HL2.
+  unfold known_class_of in HK. rewrite run_app in HK.
+  rewrite (kscan_app h [o] _ _ _ (run_true_length h (init wal))) in HK.
+  set (b := kscan (k2_init wal) h (run true (init wal) h)) in *.
+  rewrite run_true_cons in HK. cbn [kscan run] in HK. apply kclass_zero in HK.
+  assert (kclass b = 0) as HK1.
+  { apply kclass_zero_intro. destruct (k_c2 b) eqn:E; [|reflexivity].
+    rewrite (k2_step_c2_mono b o _ E) in HK. discriminate. }
+  destruct (reach h (k2_init wal) (init wal) (init wal) HL1 (init_Lrel wal) (init_Fresh wal) HK1) as [_ F].
+  fold b in F. rewrite exec_app. cbn [exec negb]. rewrite andb_false_r.
+  apply (int_tabs o b _ HI HL2 F HK).
 Qed.
